@@ -49,6 +49,20 @@ theorem reveal_rejects_bad_length (t : UInt16) (v secret : Bytes) (rv : UInt32)
     · rfl
     · first | rfl | rw [if_pos h]
 
+include hmd5 in
+/-- the padding is padding: two hidden values of the same (aligned, non-zero) length whose decrypted octets agree on the
+    original-length word and on the value it delimits are revealed alike — whatever stands behind the delimited value
+    (zeros, random octets, octets that would themselves read as an AVP record) has no influence on the result -/
+theorem reveal_padding_irrelevant (t : UInt16) (v v' secret secret' : Bytes) (rv rv' : UInt32)
+    (hl : v.length = v'.length)
+    (hw : word16Of (revealPlain md5 t v secret rv) = word16Of (revealPlain md5 t v' secret' rv'))
+    (hv : ((revealPlain md5 t v secret rv).drop 2).take ((word16Of (revealPlain md5 t v secret rv)).toNat - 6)
+        = ((revealPlain md5 t v' secret' rv').drop 2).take ((word16Of (revealPlain md5 t v secret rv)).toNat - 6)) :
+    reveal md5 (.hidden t v) secret rv = reveal md5 (.hidden t v') secret' rv' := by
+  rw [reveal_hidden_eq md5 hmd5, reveal_hidden_eq md5 hmd5]
+  simp only []
+  rw [← hl, ← hw, hv]
+
 /-! non-vacuity, and the pinned-tree defect D6: without the last guard the sub-reader request exceeds
     what remains (a 16-octet value announcing 100 octets) -/
 /-! ### the decryption loop as the code runs it: in place, last chunk to first, with index expressions that can panic
